@@ -28,6 +28,20 @@ PROPS = {
         'level_note': 'Trusted: Coq kernel + vm_compute, the harness. The wire clause (bare ACK / nothing on the wire) is covered by the datagram connection model of C05.',
         'explanation': 'Theorems: IsNoResponseCode model equals the RFC 7967 class/bit decision for every code and every value (unbounded), only bits 1,3,4 matter, other classes always pass, the response writer refuses exactly per the first No-Response option. Correspondence: exhaustive bit tables for all 256 codes x values 0..63, boundary/random 32-bit values, 16-bit codes, ResponseWriter.SetResponse over generated request option lists.',
     },
+    'C15': {
+        'run_vo': 'Opt/Run.vo', 'props_vo': 'Properties/C15.vo', 'level': 'proof',
+        'classes': {1: 'list-differs-from-reference', 2: 'refused-operation-changed-the-list', 3: 'invalid-operation-performed',
+                    4: 'valid-operation-refused', 5: 'path-round-trip', 10: 'getter-find-has', 11: 'getter-first-bytes-string',
+                    12: 'getter-uint32-media', 13: 'getter-GetUint32s', 14: 'getter-GetStrings', 15: 'getter-GetBytess',
+                    16: 'getter-Path', 17: 'getter-LocationPath', 18: 'getter-Queries'},
+        'trusted': ['hooks message/export_verif.go, message/pool/export_verif.go (build tag verif) exposing the constants read by gen',
+                    'harness reads len(pool.Message.valueBuffer) with reflect (no hook)'],
+        'assumptions': ['Go slices modelled as lists (level 1) and as views into arrays (level 2); append growth policy left open (any capacity)',
+                        'int indices do not overflow (lists shorter than 2^62)'],
+        'level_text': 'TODO',
+        'level_note': 'TODO',
+        'explanation': 'TODO',
+    },
 }
 
 NOT_APPLICABLE = {}
